@@ -89,7 +89,7 @@ structure GeneJ where
 
 def geneOfJson (j : Json) : R Gene := do
   return ⟨← strF j "name", ← intF j "strand", (natF j "region").toOption.getD 0,
-          ← listOf domainOfJson (← fld j "domains"), boolFD j "motifs" false⟩
+          ← listOf domainOfJson (← fld j "domains"), boolFD j "motifs" false, 0⟩
 
 def handlePair (j : Json) : R Json := do
   let a ← geneOfJson (← fld j "a")      -- previous
@@ -115,14 +115,16 @@ def handlePair (j : Json) : R Json := do
                               ("merged", match merged with | some m => specOfModule m | none => Json.null)])]
 
 def handleChain (j : Json) : R Json := do
-  let genes ← listOf geneOfJson (← fld j "genes")
+  let genes0 ← listOf geneOfJson (← fld j "genes")
+  let genes := (genes0.zipIdx).map fun (g, i) => { g with index := i }
   let model := exceptJson ((chain genes).map fun rs =>
     jObj [("genes", jArr (rs.map fun r => jObj [("name", Json.str r.name), ("modules", modulesToJson r.modules)]))])
   let impl ← listOf (fun g => do
       return ((← strF g "name"), (← listOf implModule (← fld g "modules")))) (fldD j "impl_genes" (jArr []))
   return jObj [("model", model),
                ("spec", jObj [("genes", jArr (impl.map fun g => jArr (g.2.map specOfModule))),
-                              ("line", toJson (Spec.chainLineOK genes (impl.map fun g => (g.1, g.2.map (·.1)))))])]
+                              ("line", toJson (Spec.chainLineOK genes (impl.map fun g => (g.1, g.2.map (·.1))))),
+                              ("blocks", toJson (Spec.chainBlocksOK genes (impl.map fun g => (g.1, g.2.map (·.1)))))])]
 
 def handleLabel (j : Json) : R Json := do
   let label ← strF j "label"
